@@ -89,6 +89,35 @@ def run(tier):
                                          {**ident, "parameter_index": p, "label": cov.hyperpar_labels[p] if p < len(cov.hyperpar_labels) else None,
                                           "want": want_g, "got": got_g}, site=f"{cname}.covariance_and_gradients")
                             break
+                # far to the right of a SHARP change-point (transition 2^-11 wide at -3 on the first axis) the covariance is the second kernel's:
+                # pairwise evaluation, the data-covariance builder and the value of covariance_and_gradients all agree with the plain kernel
+                if kd["k"] in ("se", "rq") and float(np.min(X[:, 0])) > -2.5 and float(np.min(Q[:, 0])) > -2.5:
+                    cpk, cth = G.build_kernel({"k": "cp", "parts": [{"k": "se", "ja": 0, "m": [3] * d}, kd], "axis": 1, "cs": [-3]}, d, n)
+                    cth = np.array(cth, dtype=float)
+                    cth[-1] = 2.0 ** -11 / np.log(2.0)
+                    cpk.pass_spatial_data(X)
+                    with np.errstate(all="ignore"):
+                        c_call, c_q = np.asarray(cpk(X, X, cth), dtype=float), np.asarray(cpk(Q, X, cth), dtype=float)
+                        c_build = np.asarray(cpk.build_covariance(cth), dtype=float)
+                        c_kg = np.asarray(cpk.covariance_and_gradients(cth)[0], dtype=float)
+                    sc_ = float(np.max(np.abs(want_call)))
+                    if not (close(c_call, want_call, sc_) and close(c_q, want_q, sc_) and np.all(np.isfinite(c_build)) and np.all(np.isfinite(c_kg))
+                            and np.max(np.abs(c_build - want_build)) <= 1e-8 * sc_ and np.max(np.abs(c_kg - want_build)) <= 1e-8 * sc_):
+                        ck.violation("far to the right of a sharp change-point the covariance (pairwise, builder, value of covariance_and_gradients) is the "
+                                     "second kernel's", {**ident, "change_point": -3, "width": float(cth[-1]), "want": want_call, "pairwise": c_call, "builder": c_build},
+                                     site="ChangePoint.__call__:far-side")
+                # RQ / SE pairwise evaluation on a translated point set (stationary kernels): K(u + S, v + S) = K(u, v), also for S ~ 2^40
+                if "cp" not in json.dumps(kd):
+                    S_ = 2.0 ** 40 + 1234567 * 2.0 ** -12
+                    cov_s, _ = G.build_kernel(kd, d, n)
+                    cov_s.pass_spatial_data(X + S_)
+                    with np.errstate(all="ignore"):
+                        s_call, s_q = np.asarray(cov_s(X + S_, X + S_, theta), dtype=float), np.asarray(cov_s(Q + S_, X + S_, theta), dtype=float)
+                        s_build = np.asarray(cov_s.build_covariance(theta), dtype=float)
+                    sc_ = float(np.max(np.abs(want_build)))
+                    if not (close(s_call, want_call, sc_) and close(s_q, want_q, sc_) and np.max(np.abs(s_build - want_build)) <= 1e-8 * sc_):
+                        ck.violation("a stationary covariance function gives the same values on a point set translated far from the origin",
+                                     {**ident, "translated_by": S_, "want": want_call, "pairwise": s_call}, site=f"{cname}.__call__:far")
                 # change-point bounds given by the user: each location / width parameter (by its label) gets ITS bound
                 cps = [kd] if kd["k"] == "cp" else [p_ for p_ in kd.get("parts", []) if p_["k"] == "cp"]
                 for cpd in cps:
